@@ -37,6 +37,8 @@ def main():
                 print(n, "evaluation failed:", r["error"]); bad += 1; continue
             if not r.get("patch_applies", True):
                 print(n, "patch does not apply to the current /repo"); bad += 1; continue
+            if m.get("obsolete_since"):
+                print(n, "| obsolete (no longer a fault on the repaired tree) | demo exits", (r.get("demo_clean_exit"), r.get("demo_patched_exit")), "check exits", [c["exit"] for c in r["checks"].values()]); continue
             ok = all(c["exit"] == 1 and c["n"] > 0 for c in r["checks"].values())
             demo = (r.get("demo_clean_exit"), r.get("demo_patched_exit"))
             if demo != (0, 1):
